@@ -18,6 +18,7 @@ package kernel
 //@   modifies nothing
 //@   ensures result0 == LastConsensus(node) && result0 != nil
 //@   ensures result0.Version == common.SnapshotVersionCommonEncoding && len(result0.Transactions) >= 1
+//@   ensures !fresh(result0) -- C25 (buildUniversalMintTransaction): the snapshot is an existing object, not a new allocation
 
 // The payload hash of the transaction under validation: PayloadHash() caches it in tx.hash and returns it.
 //@ spec ChainRule(node *Node, s *common.Snapshot, tx *common.VersionedTransaction) bool =
